@@ -1,111 +1,1716 @@
+// Correspondence harness for property C15 (discovery-chain compilation).
+//
+// compile cases: generated sets of service-router / service-splitter / service-resolver /
+// service-defaults / proxy-defaults entries over a few service names are handed to the real
+// discoverychain.Compile several times (fresh entry objects, shuffled insertion order); the
+// canonical projection of every distinct result is recorded, together with the verdict of
+// a direct oracle that looks only at the implementation's output (closure, paths ending at
+// resolvers, termination watchdog, determinism over the full JSON, no panic, cycles reported).
+//
+// store cases: sequences of EnsureConfigEntry / DeleteConfigEntry on a real state.Store, the
+// accept/reject verdicts and the stored set after each call, and a direct oracle (a rejected
+// write leaves the store unchanged and has a cause; an accepted write breaks no chain).
 package main
 
 import (
+	"bufio"
+	"crypto/sha256"
+	"encoding/hex"
+	"encoding/json"
+	"flag"
 	"fmt"
+	"math"
+	"math/rand"
+	"os"
 	"sort"
 	"strings"
+	"time"
 
 	"github.com/hashicorp/consul/agent/configentry"
 	"github.com/hashicorp/consul/agent/consul/discoverychain"
 	"github.com/hashicorp/consul/agent/consul/state"
 	"github.com/hashicorp/consul/agent/structs"
+	"github.com/hashicorp/consul/proto/private/pbpeering"
 )
 
-func compile(svc string, es ...structs.ConfigEntry) (*structs.CompiledDiscoveryChain, error) {
-	set := configentry.NewDiscoveryChainSet()
-	set.AddEntries(es...)
-	return discoverychain.Compile(discoverychain.CompileRequest{
-		ServiceName: svc, EvaluateInNamespace: "default", EvaluateInPartition: "default",
-		EvaluateInDatacenter: "dc1", EvaluateInTrustDomain: "trust.consul", Entries: set,
-	})
+// ------------------------------------------------------------------ case format
+
+type Route struct {
+	Svc string `json:"svc"`
+	Sub string `json:"sub"`
+}
+type Split struct {
+	W   int    `json:"w"` // 1/100 %
+	Svc string `json:"svc"`
+	Sub string `json:"sub"`
+}
+type Redirect struct {
+	Svc  string `json:"svc"`
+	Sub  string `json:"sub"`
+	DC   string `json:"dc"`
+	Peer string `json:"peer,omitempty"` // wide only
+}
+type FTarget struct {
+	Svc  string `json:"svc"`
+	Sub  string `json:"sub"`
+	DC   string `json:"dc"`
+	Peer string `json:"peer,omitempty"` // wide only
+}
+type Failover struct {
+	Key     string    `json:"key"`
+	Svc     string    `json:"svc"`
+	Sub     string    `json:"sub"`
+	DCs     []string  `json:"dcs"`
+	Targets []FTarget `json:"targets"`
+	Policy  string    `json:"policy,omitempty"` // wide only
+}
+type Entry struct {
+	Kind          string     `json:"kind"` // router splitter resolver defaults proxy
+	Name          string     `json:"name"`
+	Routes        []Route    `json:"routes,omitempty"`
+	Splits        []Split    `json:"splits,omitempty"`
+	DefaultSubset string     `json:"default_subset,omitempty"`
+	Subsets       []string   `json:"subsets,omitempty"`
+	Redirect      *Redirect  `json:"redirect,omitempty"`
+	Failover      []Failover `json:"failover,omitempty"`
+	Other         bool       `json:"other,omitempty"`
+	Protocol      string     `json:"protocol,omitempty"`
+	External      bool       `json:"external,omitempty"`
+	LB            bool       `json:"lb,omitempty"`      // wide only: hash based load balancer
+	MeshGW        string     `json:"mesh_gw,omitempty"` // wide only
 }
 
-func dump(c *structs.CompiledDiscoveryChain) string {
-	var keys []string
+type Tgt struct {
+	Svc string `json:"svc"`
+	Sub string `json:"sub"`
+	DC  string `json:"dc"`
+}
+type Nid struct {
+	K string `json:"k"` // router splitter resolver
+	S string `json:"s,omitempty"`
+	T *Tgt   `json:"t,omitempty"`
+}
+type Edge struct {
+	W    int `json:"w"`
+	Next Nid `json:"next"`
+}
+type NodeObs struct {
+	ID    Nid    `json:"id"`
+	Next  []Nid  `json:"next,omitempty"`
+	Edges []Edge `json:"edges,omitempty"`
+	Dflt  bool   `json:"dflt,omitempty"`
+	FO    []Tgt  `json:"fo,omitempty"`
+}
+type Out struct {
+	Ok      bool      `json:"ok"`
+	Err     int       `json:"err,omitempty"`
+	Msg     string    `json:"msg,omitempty"`
+	Start   *Nid      `json:"start,omitempty"`
+	Nodes   []NodeObs `json:"nodes,omitempty"`
+	Targets []Tgt     `json:"targets,omitempty"`
+	Proto   string    `json:"proto,omitempty"`
+}
+
+type Op struct {
+	Del      bool     `json:"del"`
+	Entry    Entry    `json:"entry"` // for delete only kind+name
+	Accepted bool     `json:"accepted"`
+	Msg      string   `json:"msg,omitempty"`
+	Stored   []Stored `json:"stored"`
+}
+type Stored struct {
+	Kind string `json:"kind"`
+	Name string `json:"name"`
+	Op   int    `json:"op"` // index of the op that wrote it
+}
+
+type Case struct {
+	ID      int     `json:"id"`
+	Kind    string  `json:"kind"` // compile | store
+	Gen     string  `json:"gen"`  // generator that produced it
+	Entries []Entry `json:"entries,omitempty"`
+	Svc     string  `json:"svc,omitempty"`
+	DC      string  `json:"dc,omitempty"`
+	Ovr     string  `json:"override,omitempty"`
+	Wide    *WideCtx `json:"wide,omitempty"`
+	Valid   bool    `json:"valid"` // every entry passes Normalize+Validate (what an endpoint can emit)
+	Outs    []Out   `json:"outs,omitempty"`
+	Ops     []Op    `json:"ops,omitempty"`
+	Oracle  string  `json:"oracle"`
+	Sig     map[string]interface{} `json:"sig,omitempty"`
+	ToCoq   bool    `json:"to_coq"`
+	Feat    []string `json:"feat,omitempty"`
+}
+
+type WideCtx struct {
+	MeshGW  string `json:"mesh_gw,omitempty"`
+	Timeout int    `json:"timeout_ms,omitempty"`
+	Peers   []string `json:"peers,omitempty"`
+}
+
+// ------------------------------------------------------------------ to consul structs
+
+func w32(h int) float32 { return float32(h) / 100.0 }
+
+func (e Entry) consul() structs.ConfigEntry {
+	switch e.Kind {
+	case "router":
+		r := &structs.ServiceRouterConfigEntry{Kind: structs.ServiceRouter, Name: e.Name}
+		for i, rt := range e.Routes {
+			sr := structs.ServiceRoute{Match: &structs.ServiceRouteMatch{HTTP: &structs.ServiceRouteHTTPMatch{PathPrefix: fmt.Sprintf("/p%d", i)}}}
+			if rt.Svc != "" || rt.Sub != "" {
+				sr.Destination = &structs.ServiceRouteDestination{Service: rt.Svc, ServiceSubset: rt.Sub}
+			}
+			r.Routes = append(r.Routes, sr)
+		}
+		return r
+	case "splitter":
+		s := &structs.ServiceSplitterConfigEntry{Kind: structs.ServiceSplitter, Name: e.Name}
+		for _, sp := range e.Splits {
+			s.Splits = append(s.Splits, structs.ServiceSplit{Weight: w32(sp.W), Service: sp.Svc, ServiceSubset: sp.Sub})
+		}
+		return s
+	case "resolver":
+		r := &structs.ServiceResolverConfigEntry{Kind: structs.ServiceResolver, Name: e.Name, DefaultSubset: e.DefaultSubset}
+		if len(e.Subsets) > 0 {
+			r.Subsets = map[string]structs.ServiceResolverSubset{}
+			for _, s := range e.Subsets {
+				r.Subsets[s] = structs.ServiceResolverSubset{Filter: "Service.Meta.version == " + s}
+			}
+		}
+		if e.Redirect != nil {
+			r.Redirect = &structs.ServiceResolverRedirect{Service: e.Redirect.Svc, ServiceSubset: e.Redirect.Sub, Datacenter: e.Redirect.DC, Peer: e.Redirect.Peer}
+		}
+		if len(e.Failover) > 0 {
+			r.Failover = map[string]structs.ServiceResolverFailover{}
+			for _, f := range e.Failover {
+				fo := structs.ServiceResolverFailover{Service: f.Svc, ServiceSubset: f.Sub, Datacenters: append([]string(nil), f.DCs...)}
+				for _, t := range f.Targets {
+					fo.Targets = append(fo.Targets, structs.ServiceResolverFailoverTarget{Service: t.Svc, ServiceSubset: t.Sub, Datacenter: t.DC, Peer: t.Peer})
+				}
+				if f.Policy != "" {
+					fo.Policy = &structs.ServiceResolverFailoverPolicy{Mode: f.Policy}
+				}
+				r.Failover[f.Key] = fo
+			}
+		}
+		if e.Other {
+			r.ConnectTimeout = 33 * time.Second
+		}
+		if e.LB {
+			r.LoadBalancer = &structs.LoadBalancer{Policy: structs.LBPolicyRingHash, HashPolicies: []structs.HashPolicy{{SourceIP: true}}}
+		}
+		return r
+	case "defaults":
+		d := &structs.ServiceConfigEntry{Kind: structs.ServiceDefaults, Name: e.Name, Protocol: e.Protocol}
+		if e.External {
+			d.ExternalSNI = e.Name + ".external.example"
+		}
+		if e.MeshGW != "" {
+			d.MeshGateway = structs.MeshGatewayConfig{Mode: structs.MeshGatewayMode(e.MeshGW)}
+		}
+		return d
+	case "proxy":
+		p := &structs.ProxyConfigEntry{Kind: structs.ProxyDefaults, Name: structs.ProxyConfigGlobal}
+		if e.Protocol != "" {
+			p.Config = map[string]interface{}{"protocol": e.Protocol}
+		}
+		return p
+	}
+	panic("bad kind " + e.Kind)
+}
+
+func consulKind(k string) string {
+	switch k {
+	case "router":
+		return structs.ServiceRouter
+	case "splitter":
+		return structs.ServiceSplitter
+	case "resolver":
+		return structs.ServiceResolver
+	case "defaults":
+		return structs.ServiceDefaults
+	case "proxy":
+		return structs.ProxyDefaults
+	}
+	return k
+}
+func shortKind(k string) string {
+	switch k {
+	case structs.ServiceRouter:
+		return "router"
+	case structs.ServiceSplitter:
+		return "splitter"
+	case structs.ServiceResolver:
+		return "resolver"
+	case structs.ServiceDefaults:
+		return "defaults"
+	case structs.ProxyDefaults:
+		return "proxy"
+	}
+	return k
+}
+
+// normalized+validated copy, as the ConfigEntry.Apply endpoint would hand it to raft
+func prepared(e Entry) (structs.ConfigEntry, error) {
+	c := e.consul()
+	if err := c.Normalize(); err != nil {
+		return c, err
+	}
+	if err := c.Validate(); err != nil {
+		return c, err
+	}
+	return c, nil
+}
+
+func allValid(es []Entry) bool {
+	for _, e := range es {
+		if _, err := prepared(e); err != nil {
+			return false
+		}
+	}
+	return true
+}
+
+// ------------------------------------------------------------------ running Compile
+
+func errCode(err error) int {
+	s := err.Error()
+	switch {
+	case strings.Contains(s, "uses inconsistent protocols"):
+		return 1
+	case strings.Contains(s, "detected circular resolver redirect"):
+		return 2
+	case strings.Contains(s, "does not have a subset named"):
+		return 3
+	case strings.Contains(s, "cannot define redirects for external"):
+		return 4
+	case strings.Contains(s, "cannot define subsets for external"):
+		return 5
+	case strings.Contains(s, "cannot define failover for external"):
+		return 6
+	case strings.Contains(s, "detected circular reference"):
+		return 7
+	case strings.Contains(s, "does not permit advanced routing or splitting"):
+		return 8
+	}
+	return 9
+}
+
+type runResult struct {
+	chain   *structs.CompiledDiscoveryChain
+	err     error
+	panicV  interface{}
+	timeout bool
+}
+
+var hung = false // a compile did not come back: stop generating (the goroutine cannot be killed)
+
+func compileOnce(es []Entry, svc, dc, ovr string, wide *WideCtx, perm []int) runResult {
+	ch := make(chan runResult, 1)
+	go func() {
+		var res runResult
+		defer func() {
+			if r := recover(); r != nil {
+				res.panicV = r
+			}
+			ch <- res
+		}()
+		set := configentry.NewDiscoveryChainSet()
+		for _, i := range perm {
+			c := es[i].consul()
+			_ = c.Normalize()
+			set.AddEntries(c)
+		}
+		req := discoverychain.CompileRequest{
+			ServiceName: svc, EvaluateInNamespace: "default", EvaluateInPartition: "default",
+			EvaluateInDatacenter: dc, EvaluateInTrustDomain: "11111111-2222-3333-4444-555555555555.consul",
+			OverrideProtocol: ovr, Entries: set,
+		}
+		if wide != nil {
+			if wide.MeshGW != "" {
+				req.OverrideMeshGateway = structs.MeshGatewayConfig{Mode: structs.MeshGatewayMode(wide.MeshGW)}
+			}
+			if wide.Timeout > 0 {
+				req.OverrideConnectTimeout = time.Duration(wide.Timeout) * time.Millisecond
+			}
+			for _, p := range wide.Peers {
+				set.AddPeers(&pbpeering.Peering{Name: p})
+			}
+		}
+		res.chain, res.err = discoverychain.Compile(req)
+	}()
+	select {
+	case r := <-ch:
+		return r
+	case <-time.After(5 * time.Second):
+		hung = true
+		return runResult{timeout: true}
+	}
+}
+
+func tgtOf(c *structs.CompiledDiscoveryChain, id string) (*Tgt, bool) {
+	t, ok := c.Targets[id]
+	if !ok || t == nil {
+		return nil, false
+	}
+	return &Tgt{Svc: t.Service, Sub: t.ServiceSubset, DC: t.Datacenter}, true
+}
+
+func nidOf(c *structs.CompiledDiscoveryChain, key string) (Nid, bool) {
+	n, ok := c.Nodes[key]
+	if !ok || n == nil {
+		return Nid{K: "missing", S: key}, false
+	}
+	switch n.Type {
+	case structs.DiscoveryGraphNodeTypeRouter:
+		return Nid{K: "router", S: strings.SplitN(n.Name, ".", 2)[0]}, true
+	case structs.DiscoveryGraphNodeTypeSplitter:
+		return Nid{K: "splitter", S: strings.SplitN(n.Name, ".", 2)[0]}, true
+	case structs.DiscoveryGraphNodeTypeResolver:
+		if n.Resolver == nil {
+			return Nid{K: "missing", S: key}, false
+		}
+		t, ok := tgtOf(c, n.Resolver.Target)
+		if !ok {
+			return Nid{K: "missing", S: key}, false
+		}
+		return Nid{K: "resolver", T: t}, true
+	}
+	return Nid{K: "missing", S: key}, false
+}
+
+func scale(w float32) int { return int(math.Round(float64(w * 100.0))) }
+
+// canonical projection of a result (what the model is compared with); convertible=false when
+// the graph is not closed (then the oracle has already objected)
+func project(r runResult) (Out, bool) {
+	if r.err != nil {
+		return Out{Ok: false, Err: errCode(r.err), Msg: r.err.Error()}, true
+	}
+	c := r.chain
+	okAll := true
+	st, ok := nidOf(c, c.StartNode)
+	okAll = okAll && ok
+	o := Out{Ok: true, Start: &st, Proto: c.Protocol}
+	keys := make([]string, 0, len(c.Nodes))
 	for k := range c.Nodes {
 		keys = append(keys, k)
 	}
 	sort.Strings(keys)
-	var sb strings.Builder
 	for _, k := range keys {
 		n := c.Nodes[k]
-		sb.WriteString(k + ":")
-		for _, s := range n.Splits {
-			sb.WriteString(fmt.Sprintf(" %v->%s", s.Weight, s.NextNode))
-		}
-		for _, r := range n.Routes {
-			sb.WriteString(fmt.Sprintf(" ->%s", r.NextNode))
-		}
-		sb.WriteString("\n")
-	}
-	return sb.String()
-}
-
-func main() {
-	// experiment 1: flatten order
-	found := 0
-	ws := []float32{33.33, 66.67, 50, 50, 25, 75, 10, 90, 1, 99, 12.5, 87.5, 0.01, 99.99, 45, 55, 3, 97, 5, 95}
-	for i := 0; i < len(ws) && found < 5; i += 2 {
-		for j := 0; j < len(ws) && found < 5; j += 2 {
-			for k := 0; k < len(ws) && found < 5; k += 2 {
-				mk := func(name, next string, w1, w2 float32) *structs.ServiceSplitterConfigEntry {
-					return &structs.ServiceSplitterConfigEntry{Kind: "service-splitter", Name: name, Splits: []structs.ServiceSplit{
-						{Weight: w1, Service: next}, {Weight: w2, Service: name + "x"}}}
-				}
-				es := []structs.ConfigEntry{
-					&structs.ProxyConfigEntry{Kind: "proxy-defaults", Name: "global", Protocol: "http"},
-					mk("a", "b", ws[i], ws[i+1]), mk("b", "c", ws[j], ws[j+1]), mk("c", "d", ws[k], ws[k+1]),
-				}
-				seen := map[string]int{}
-				for r := 0; r < 40; r++ {
-					c, err := compile("a", es...)
-					if err != nil {
-						fmt.Println("err", err)
-						break
-					}
-					seen[dump(c)]++
-				}
-				if len(seen) > 1 {
-					found++
-					fmt.Println("NONDET", ws[i], ws[j], ws[k])
-					for d, n := range seen {
-						fmt.Println(n, "times:\n"+d)
+		id, ok := nidOf(c, k)
+		okAll = okAll && ok
+		no := NodeObs{ID: id}
+		switch n.Type {
+		case structs.DiscoveryGraphNodeTypeRouter:
+			for _, rt := range n.Routes {
+				x, ok := nidOf(c, rt.NextNode)
+				okAll = okAll && ok
+				no.Next = append(no.Next, x)
+			}
+		case structs.DiscoveryGraphNodeTypeSplitter:
+			for _, sp := range n.Splits {
+				x, ok := nidOf(c, sp.NextNode)
+				okAll = okAll && ok
+				no.Edges = append(no.Edges, Edge{W: scale(sp.Weight), Next: x})
+			}
+		case structs.DiscoveryGraphNodeTypeResolver:
+			if n.Resolver != nil {
+				no.Dflt = n.Resolver.Default
+				if n.Resolver.Failover != nil {
+					for _, ft := range n.Resolver.Failover.Targets {
+						t, ok := tgtOf(c, ft)
+						okAll = okAll && ok
+						if ok {
+							no.FO = append(no.FO, *t)
+						}
 					}
 				}
 			}
 		}
+		o.Nodes = append(o.Nodes, no)
 	}
-	fmt.Println("nondet found:", found)
+	tk := make([]string, 0, len(c.Targets))
+	for k := range c.Targets {
+		tk = append(tk, k)
+	}
+	sort.Strings(tk)
+	for _, k := range tk {
+		t := c.Targets[k]
+		o.Targets = append(o.Targets, Tgt{Svc: t.Service, Sub: t.ServiceSubset, DC: t.Datacenter})
+	}
+	return o, okAll
+}
 
-	// experiment 2: indirect chain
-	s := state.NewStateStore(nil)
-	idx := uint64(1)
-	put := func(e structs.ConfigEntry) {
-		idx++
-		if err := e.Normalize(); err != nil {
-			fmt.Println("normalize", err)
-		}
-		if err := e.Validate(); err != nil {
-			fmt.Println("validate", err)
-		}
-		err := s.EnsureConfigEntry(idx, e)
-		fmt.Printf("put %s/%s: %v\n", e.GetKind(), e.GetName(), err)
+// ------------------------------------------------------------------ direct oracle on one result
+
+// structural oracle: every referenced node and target exists, every path from the start ends
+// at a resolver that has a target (no cycle, no dead end)
+func structureOracle(c *structs.CompiledDiscoveryChain) string {
+	if c.StartNode == "" {
+		return "closure:no-start-node"
 	}
-	put(&structs.ServiceConfigEntry{Kind: "service-defaults", Name: "a", Protocol: "http"})
-	put(&structs.ServiceConfigEntry{Kind: "service-defaults", Name: "c", Protocol: "http"})
-	put(&structs.ServiceSplitterConfigEntry{Kind: "service-splitter", Name: "b", Splits: []structs.ServiceSplit{{Weight: 100, Service: "c"}}})
-	put(&structs.ServiceRouterConfigEntry{Kind: "service-router", Name: "a", Routes: []structs.ServiceRoute{{Match: &structs.ServiceRouteMatch{HTTP: &structs.ServiceRouteHTTPMatch{PathPrefix: "/x"}}, Destination: &structs.ServiceRouteDestination{Service: "b"}}}})
-	put(&structs.ServiceConfigEntry{Kind: "service-defaults", Name: "c", Protocol: "grpc"})
-	for _, n := range []string{"a", "b", "c"} {
-		_, set, err := s.ReadDiscoveryChainConfigEntries(nil, n, structs.DefaultEnterpriseMetaInDefaultPartition())
-		if err != nil {
-			fmt.Println("read", err)
+	if _, ok := c.Nodes[c.StartNode]; !ok {
+		return "closure:start-node-missing"
+	}
+	for k, n := range c.Nodes {
+		if n == nil {
+			return "closure:nil-node"
+		}
+		if n.MapKey() != k {
+			return "closure:node-key-mismatch"
+		}
+		switch n.Type {
+		case structs.DiscoveryGraphNodeTypeRouter:
+			for _, r := range n.Routes {
+				if _, ok := c.Nodes[r.NextNode]; !ok {
+					return "closure:route-next-missing"
+				}
+			}
+		case structs.DiscoveryGraphNodeTypeSplitter:
+			for _, s := range n.Splits {
+				if _, ok := c.Nodes[s.NextNode]; !ok {
+					return "closure:split-next-missing"
+				}
+			}
+		case structs.DiscoveryGraphNodeTypeResolver:
+			if n.Resolver == nil {
+				return "closure:resolver-nil"
+			}
+			if _, ok := c.Targets[n.Resolver.Target]; !ok {
+				return "closure:resolver-target-missing"
+			}
+			if n.Resolver.Failover != nil {
+				for _, t := range n.Resolver.Failover.Targets {
+					if _, ok := c.Targets[t]; !ok {
+						return "closure:failover-target-missing"
+					}
+				}
+			}
+		default:
+			return "closure:unknown-node-type"
+		}
+	}
+	// every path from the start ends at a resolver
+	onPath := map[string]bool{}
+	var walk func(k string, depth int) string
+	walk = func(k string, depth int) string {
+		if onPath[k] {
+			return "paths:cycle"
+		}
+		if depth > 64 {
+			return "paths:too-deep"
+		}
+		n := c.Nodes[k]
+		var next []string
+		switch n.Type {
+		case structs.DiscoveryGraphNodeTypeRouter:
+			for _, r := range n.Routes {
+				next = append(next, r.NextNode)
+			}
+		case structs.DiscoveryGraphNodeTypeSplitter:
+			for _, s := range n.Splits {
+				next = append(next, s.NextNode)
+			}
+		case structs.DiscoveryGraphNodeTypeResolver:
+			return ""
+		}
+		if len(next) == 0 {
+			return "paths:dead-end-" + n.Type
+		}
+		onPath[k] = true
+		defer delete(onPath, k)
+		for _, x := range next {
+			if r := walk(x, depth+1); r != "" {
+				return r
+			}
+		}
+		return ""
+	}
+	return walk(c.StartNode, 0)
+}
+
+// entries-level facts the oracle uses to decide "a cycle must have been reported"
+func findEntry(es []Entry, kind, name string) *Entry {
+	for i := range es {
+		if es[i].Kind == kind && es[i].Name == name {
+			return &es[i]
+		}
+	}
+	return nil
+}
+
+func advancedDisabled(ovr string) bool {
+	return ovr != "" && !structs.IsProtocolHTTPLike(ovr)
+}
+
+// a cycle of pure service redirects (no subset, datacenter or peer) reached from the start
+// service when nothing sits in front of its resolver
+func pureRedirectCycle(es []Entry, svc, ovr string) bool {
+	if !advancedDisabled(ovr) && (findEntry(es, "router", svc) != nil || findEntry(es, "splitter", svc) != nil) {
+		return false
+	}
+	seen := map[string]bool{}
+	cur := svc
+	for {
+		if seen[cur] {
+			return true
+		}
+		seen[cur] = true
+		r := findEntry(es, "resolver", cur)
+		if r == nil || r.Redirect == nil {
+			return false
+		}
+		rd := r.Redirect
+		if rd.Sub != "" || rd.DC != "" || rd.Peer != "" || rd.Svc == "" || rd.Svc == cur {
+			return false
+		}
+		cur = rd.Svc
+	}
+}
+
+// a cycle of splitter-to-splitter legs reached from the start service (no router in front)
+func splitterCycle(es []Entry, svc, ovr string) bool {
+	if advancedDisabled(ovr) || findEntry(es, "router", svc) != nil {
+		return false
+	}
+	onPath := map[string]bool{}
+	var walk func(s string, depth int) bool
+	walk = func(s string, depth int) bool {
+		sp := findEntry(es, "splitter", s)
+		if sp == nil {
+			return false
+		}
+		if onPath[s] {
+			return true
+		}
+		if depth > 16 {
+			return false
+		}
+		onPath[s] = true
+		defer delete(onPath, s)
+		for _, leg := range sp.Splits {
+			n := leg.Svc
+			if n == "" {
+				n = s
+			}
+			if n != s && leg.Sub == "" && findEntry(es, "splitter", n) != nil {
+				if walk(n, depth+1) {
+					return true
+				}
+			}
+		}
+		return false
+	}
+	return walk(svc, 0)
+}
+
+// depth of the deepest chain of splitter-to-splitter legs (entries level)
+func splitterDepth(es []Entry) int {
+	best := 0
+	var walk func(s string, depth int, onPath map[string]bool)
+	walk = func(s string, depth int, onPath map[string]bool) {
+		sp := findEntry(es, "splitter", s)
+		if sp == nil || onPath[s] || depth > 8 {
+			return
+		}
+		if depth+1 > best {
+			best = depth + 1
+		}
+		onPath[s] = true
+		for _, leg := range sp.Splits {
+			n := leg.Svc
+			if n == "" {
+				n = s
+			}
+			if n != s && leg.Sub == "" {
+				walk(n, depth+1, onPath)
+			}
+		}
+		delete(onPath, s)
+	}
+	for _, e := range es {
+		if e.Kind == "splitter" {
+			walk(e.Name, 0, map[string]bool{})
+		}
+	}
+	return best
+}
+
+func eraseWeights(o Out) Out {
+	c := o
+	c.Nodes = nil
+	for _, n := range o.Nodes {
+		m := n
+		m.Edges = nil
+		for _, e := range n.Edges {
+			m.Edges = append(m.Edges, Edge{W: 0, Next: e.Next})
+		}
+		c.Nodes = append(c.Nodes, m)
+	}
+	return c
+}
+
+func js(v interface{}) string {
+	b, _ := json.Marshal(v)
+	return string(b)
+}
+
+// weights in the full JSON are float32; strip them for the "weights only" comparison
+func fullJSON(c *structs.CompiledDiscoveryChain) string {
+	b, err := json.Marshal(c)
+	if err != nil {
+		return "marshal-error:" + err.Error()
+	}
+	return string(b)
+}
+
+// runs Compile [reps] times and fills Outs / Oracle / Sig
+func runCompileCase(c *Case, rng *rand.Rand, reps int) {
+	n := len(c.Entries)
+	seenProj := map[string]bool{}
+	seenFull := map[string]bool{}
+	convertible := true
+	anyOk := false
+	for i := 0; i < reps; i++ {
+		perm := rng.Perm(n)
+		if i == 0 {
+			for j := range perm {
+				perm[j] = j
+			}
+		}
+		r := compileOnce(c.Entries, c.Svc, c.DC, c.Ovr, c.Wide, perm)
+		if r.timeout {
+			c.Oracle = "termination:compile-did-not-return-in-5s"
+			c.Sig = map[string]interface{}{"kind": "termination"}
+			return
+		}
+		if r.panicV != nil {
+			c.Oracle = fmt.Sprintf("panic:%v", r.panicV)
+			c.Sig = map[string]interface{}{"kind": "panic"}
+			return
+		}
+		if r.err != nil {
+			if _, isGraph := r.err.(*structs.ConfigEntryGraphError); !isGraph && c.Oracle == "" {
+				c.Oracle = "internal-error:" + r.err.Error()
+				c.Sig = map[string]interface{}{"kind": "internal-error"}
+			}
+		} else {
+			anyOk = true
+			if s := structureOracle(r.chain); s != "" && c.Oracle == "" {
+				if !(strings.HasPrefix(s, "paths:dead-end-splitter") && !c.Valid) { // a splitter without splits never passes Validate
+					c.Oracle = s
+					c.Sig = map[string]interface{}{"kind": strings.SplitN(s, ":", 2)[0], "what": s}
+				}
+			}
+		}
+		o, conv := project(r)
+		convertible = convertible && conv
+		pj := js(o)
+		if !seenProj[pj] {
+			seenProj[pj] = true
+			c.Outs = append(c.Outs, o)
+		}
+		if r.err != nil {
+			seenFull["err:"+fmt.Sprint(errCode(r.err))] = true
+		} else {
+			seenFull[fullJSON(r.chain)] = true
+		}
+	}
+	if c.Oracle == "" && len(seenFull) > 1 {
+		// result differs between repeated compilations / insertion orders
+		w := map[string]bool{}
+		allOk := true
+		for _, o := range c.Outs {
+			allOk = allOk && o.Ok
+			w[js(eraseWeights(o))] = true
+		}
+		differs := "structure"
+		if allOk && len(w) == 1 && len(c.Outs) > 1 {
+			differs = "split-weights-only"
+		} else if len(c.Outs) == 1 {
+			differs = "unprojected-fields"
+		}
+		c.Oracle = "determinism:" + differs
+		c.Sig = map[string]interface{}{"kind": "nondeterministic-output", "differs": differs, "splitter_depth_ge3": splitterDepth(c.Entries) >= 3}
+	}
+	if c.Oracle == "" && anyOk {
+		if pureRedirectCycle(c.Entries, c.Svc, c.Ovr) {
+			c.Oracle = "cycles:redirect-cycle-not-reported"
+			c.Sig = map[string]interface{}{"kind": "cycle-not-reported", "what": "redirect"}
+		} else if splitterCycle(c.Entries, c.Svc, c.Ovr) {
+			c.Oracle = "cycles:splitter-cycle-not-reported"
+			c.Sig = map[string]interface{}{"kind": "cycle-not-reported", "what": "splitter"}
+		}
+	}
+	if !convertible {
+		c.ToCoq = false
+	}
+}
+
+// ------------------------------------------------------------------ generators (compile)
+
+var svcsQuick = []string{"a", "b", "c"}
+var subsetsU = []string{"v1", "v2"}
+var dcsU = []string{"dc1", "dc2", "dc3"}
+var protosU = []string{"", "tcp", "http", "http2", "grpc"}
+
+// weight partitions of 100.00 whose products Go's float32 arithmetic and exact rounding agree on
+// (checked at start-up by floatSafe)
+var partitions = [][]int{{10000}, {5000, 5000}, {2500, 7500}, {1000, 9000}, {3333, 6667}, {1250, 8750},
+	{100, 9900}, {3333, 3333, 3334}, {2500, 2500, 5000}, {1000, 2000, 7000}, {500, 9500}}
+
+func floatMul(h1, h2 int) int {
+	return scale(w32(h1) * w32(h2) / 100)
+}
+func exactMul(h1, h2 int) int { return (h1*h2 + 5000) / 10000 }
+
+func floatSafePartitions() [][]int {
+	var ws []int
+	for _, p := range partitions {
+		ws = append(ws, p...)
+	}
+	bad := map[int]bool{}
+	for _, a := range ws {
+		for _, b := range ws {
+			if floatMul(a, b) != exactMul(a, b) {
+				bad[a], bad[b] = true, true
+			}
+			for _, c := range ws {
+				if floatMul(exactMul(a, b), c) != exactMul(exactMul(a, b), c) || floatMul(a, exactMul(b, c)) != exactMul(a, exactMul(b, c)) {
+					bad[a], bad[b], bad[c] = true, true, true
+				}
+			}
+		}
+	}
+	var out [][]int
+	for _, p := range partitions {
+		ok := true
+		for _, w := range p {
+			if bad[w] {
+				ok = false
+			}
+		}
+		if ok {
+			out = append(out, p)
+		}
+	}
+	return out
+}
+
+type gen struct {
+	rng   *rand.Rand
+	svcs  []string
+	parts [][]int
+}
+
+func (g *gen) pick(l []string) string { return l[g.rng.Intn(len(l))] }
+func (g *gen) p(x float64) bool       { return g.rng.Float64() < x }
+
+func (g *gen) subsetOf(res map[string]*Entry, svc string, wellFormed bool) string {
+	if r, ok := res[svc]; ok && len(r.Subsets) > 0 && wellFormed {
+		return r.Subsets[g.rng.Intn(len(r.Subsets))]
+	}
+	if wellFormed {
+		return ""
+	}
+	return g.pick(subsetsU)
+}
+
+// a random entry set inside the modelled feature set; mostly what Validate accepts
+func (g *gen) entrySet(malformed bool) []Entry {
+	var es []Entry
+	wf := func() bool { return !malformed || g.p(0.7) }
+	// protocols
+	switch {
+	case g.p(0.55):
+		es = append(es, Entry{Kind: "proxy", Name: "global", Protocol: g.pick([]string{"http", "http", "http2", "grpc"})})
+	case g.p(0.3):
+		es = append(es, Entry{Kind: "proxy", Name: "global", Protocol: g.pick(protosU)})
+	}
+	for _, s := range g.svcs {
+		if g.p(0.3) {
+			es = append(es, Entry{Kind: "defaults", Name: s, Protocol: g.pick(protosU), External: g.p(0.08)})
+		}
+	}
+	// resolvers first (subsets are referenced by everything else)
+	res := map[string]*Entry{}
+	for _, s := range g.svcs {
+		if !g.p(0.6) {
 			continue
 		}
-		_, err = discoverychain.Compile(discoverychain.CompileRequest{
-			ServiceName: n, EvaluateInNamespace: "default", EvaluateInPartition: "default",
-			EvaluateInDatacenter: "dc1", EvaluateInTrustDomain: "trust.consul", Entries: set,
-		})
-		fmt.Printf("chain %s: %v\n", n, err)
+		r := &Entry{Kind: "resolver", Name: s, Other: g.p(0.2)}
+		switch g.rng.Intn(3) {
+		case 1:
+			r.Subsets = []string{"v1"}
+		case 2:
+			r.Subsets = []string{"v1", "v2"}
+		}
+		res[s] = r
 	}
+	for _, s := range g.svcs {
+		r, ok := res[s]
+		if !ok {
+			continue
+		}
+		if len(r.Subsets) > 0 && g.p(0.4) {
+			r.DefaultSubset = r.Subsets[g.rng.Intn(len(r.Subsets))]
+		} else if !wf() {
+			r.DefaultSubset = g.pick(subsetsU)
+		}
+		if g.p(0.4) {
+			rd := &Redirect{}
+			switch g.rng.Intn(6) {
+			case 0: // other datacenter, same service
+				rd.DC = g.pick(dcsU[1:])
+			case 1:
+				rd.Svc = g.pick(g.svcs)
+				rd.DC = g.pick(dcsU)
+			default:
+				rd.Svc = g.pick(g.svcs)
+			}
+			if rd.Svc != "" && g.p(0.3) {
+				rd.Sub = g.subsetOf(res, rd.Svc, wf())
+			}
+			if !wf() && g.p(0.3) {
+				rd.Sub = g.pick(subsetsU)
+			}
+			r.Redirect = rd
+		}
+		if (r.Redirect == nil || !wf()) && g.p(0.45) {
+			keys := []string{"*"}
+			keys = append(keys, r.Subsets...)
+			if !wf() {
+				keys = append(keys, "v2", "")
+			}
+			nf := 1 + g.rng.Intn(2)
+			used := map[string]bool{}
+			for i := 0; i < nf; i++ {
+				k := g.pick(keys)
+				if used[k] {
+					continue
+				}
+				used[k] = true
+				f := Failover{Key: k}
+				switch g.rng.Intn(4) {
+				case 0:
+					f.Svc = g.pick(g.svcs)
+					if g.p(0.3) {
+						f.Sub = g.subsetOf(res, f.Svc, wf())
+					}
+				case 1:
+					f.DCs = []string{g.pick(dcsU[1:])}
+					if g.p(0.4) {
+						f.DCs = append(f.DCs, g.pick(dcsU))
+					}
+					if g.p(0.3) {
+						f.Svc = g.pick(g.svcs)
+					}
+				case 2:
+					nt := 1 + g.rng.Intn(2)
+					for j := 0; j < nt; j++ {
+						t := FTarget{Svc: g.pick(append([]string{""}, g.svcs...))}
+						if g.p(0.4) {
+							t.DC = g.pick(dcsU)
+						}
+						if g.p(0.3) {
+							n := t.Svc
+							if n == "" {
+								n = s
+							}
+							t.Sub = g.subsetOf(res, n, wf())
+						}
+						if t.Svc == "" && t.DC == "" && t.Sub == "" {
+							t.DC = "dc2"
+						}
+						f.Targets = append(f.Targets, t)
+					}
+				case 3:
+					f.Sub = g.subsetOf(res, s, wf())
+					if f.Sub == "" {
+						f.Svc = g.pick(g.svcs)
+					}
+				}
+				r.Failover = append(r.Failover, f)
+			}
+		}
+		es = append(es, *r)
+	}
+	for _, s := range g.svcs {
+		if g.p(0.4) {
+			part := g.parts[g.rng.Intn(len(g.parts))]
+			if !wf() && g.p(0.3) {
+				part = []int{}
+			}
+			sp := Entry{Kind: "splitter", Name: s}
+			used := map[string]bool{}
+			for _, w := range part {
+				leg := Split{W: w, Svc: g.pick(append([]string{""}, g.svcs...))}
+				n := leg.Svc
+				if n == "" {
+					n = s
+				}
+				if g.p(0.3) {
+					leg.Sub = g.subsetOf(res, n, wf())
+				}
+				if used[n+"/"+leg.Sub] && wf() {
+					continue
+				}
+				used[n+"/"+leg.Sub] = true
+				sp.Splits = append(sp.Splits, leg)
+			}
+			// re-balance when a duplicate leg was dropped
+			if len(sp.Splits) != len(part) && len(sp.Splits) > 0 && wf() {
+				sum := 0
+				for _, l := range sp.Splits[1:] {
+					sum += l.W
+				}
+				sp.Splits[0].W = 10000 - sum
+			}
+			es = append(es, sp)
+		}
+	}
+	for _, s := range g.svcs {
+		if g.p(0.3) {
+			rt := Entry{Kind: "router", Name: s}
+			nr := g.rng.Intn(3)
+			for i := 0; i < nr; i++ {
+				r := Route{Svc: g.pick(append([]string{""}, g.svcs...))}
+				n := r.Svc
+				if n == "" {
+					n = s
+				}
+				if g.p(0.35) {
+					r.Sub = g.subsetOf(res, n, wf())
+				}
+				rt.Routes = append(rt.Routes, r)
+			}
+			es = append(es, rt)
+		}
+	}
+	g.rng.Shuffle(len(es), func(i, j int) { es[i], es[j] = es[j], es[i] })
+	return es
+}
+
+func (g *gen) compileCase(genName string, es []Entry) Case {
+	c := Case{Kind: "compile", Gen: genName, Entries: es, Svc: g.pick(g.svcs), DC: "dc1", ToCoq: true}
+	if g.p(0.15) {
+		c.DC = "dc2"
+	}
+	if g.p(0.15) {
+		c.Ovr = g.pick([]string{"tcp", "http", "grpc", "http2"})
+	}
+	c.Valid = allValid(es)
+	return c
+}
+
+// structured families ------------------------------------------------------------
+
+// every redirect map over the services (none / each service), optionally with subsets and datacenters
+func (g *gen) redirectFamily(emit func(Case)) {
+	n := len(g.svcs)
+	choices := n + 1
+	total := 1
+	for i := 0; i < n; i++ {
+		total *= choices
+	}
+	for code := 0; code < total; code++ {
+		for variant := 0; variant < 3; variant++ {
+			var es []Entry
+			x := code
+			for i := 0; i < n; i++ {
+				ch := x % choices
+				x /= choices
+				r := Entry{Kind: "resolver", Name: g.svcs[i], Subsets: []string{"v1"}}
+				if ch > 0 {
+					r.Redirect = &Redirect{Svc: g.svcs[ch-1]}
+					if variant == 1 && i%2 == 0 {
+						r.Redirect.DC = "dc2"
+					}
+					if variant == 2 {
+						r.Redirect.Sub = "v1"
+					}
+				} else if variant == 2 {
+					r.DefaultSubset = "v1"
+				}
+				es = append(es, r)
+			}
+			for _, s := range g.svcs {
+				c := Case{Kind: "compile", Gen: "redirect-family", Entries: es, Svc: s, DC: "dc1", ToCoq: true}
+				c.Valid = allValid(es)
+				emit(c)
+			}
+		}
+	}
+}
+
+// every splitter graph over the services: each service has no splitter or one whose legs go
+// to a non-empty subset of the services (cycles and three-deep chains included)
+func (g *gen) splitterFamily(emit func(Case), weightVariants int) {
+	n := len(g.svcs)
+	sets := 1 << n // subset of services as legs; 0 = no splitter
+	total := 1
+	for i := 0; i < n; i++ {
+		total *= sets
+	}
+	for code := 0; code < total; code++ {
+		for wv := 0; wv < weightVariants; wv++ {
+			es := []Entry{{Kind: "proxy", Name: "global", Protocol: "http"}}
+			x := code
+			ok := true
+			for i := 0; i < n; i++ {
+				m := x % sets
+				x /= sets
+				if m == 0 {
+					continue
+				}
+				var legs []string
+				for j := 0; j < n; j++ {
+					if m&(1<<j) != 0 {
+						legs = append(legs, g.svcs[j])
+					}
+				}
+				var part []int
+				for _, p := range g.parts {
+					if len(p) == len(legs) {
+						part = p
+						if wv == 0 || g.p(0.4) {
+							break
+						}
+					}
+				}
+				if part == nil {
+					ok = false
+					break
+				}
+				sp := Entry{Kind: "splitter", Name: g.svcs[i]}
+				for j, l := range legs {
+					sp.Splits = append(sp.Splits, Split{W: part[j], Svc: l})
+				}
+				es = append(es, sp)
+			}
+			if !ok {
+				continue
+			}
+			c := Case{Kind: "compile", Gen: "splitter-family", Entries: es, Svc: g.svcs[0], DC: "dc1", ToCoq: true}
+			c.Valid = allValid(es)
+			emit(c)
+		}
+	}
+}
+
+// three-deep splitter chains with weights that round differently depending on the order in
+// which flattenAdjacentSplitterNodes meets the nodes (any weights: the model multiplies exactly)
+func (g *gen) deepChains(emit func(Case), count int) {
+	ws := [][]int{{3333, 6667}, {5000, 5000}, {1250, 8750}, {2500, 7500}, {500, 9500}, {3300, 6700}, {4500, 5500}}
+	for i := 0; i < count; i++ {
+		mk := func(name, next string) Entry {
+			w := ws[g.rng.Intn(len(ws))]
+			return Entry{Kind: "splitter", Name: name, Splits: []Split{{W: w[0], Svc: next}, {W: w[1], Svc: name, Sub: ""}}}
+		}
+		es := []Entry{{Kind: "proxy", Name: "global", Protocol: "http"}, mk("a", "b"), mk("b", "c"), mk("c", "c")}
+		// the last splitter splits between two subsets of itself
+		es[3].Splits = []Split{{W: es[3].Splits[0].W, Svc: "c", Sub: "v1"}, {W: es[3].Splits[1].W, Svc: "c", Sub: "v2"}}
+		es = append(es, Entry{Kind: "resolver", Name: "c", Subsets: []string{"v1", "v2"}})
+		c := Case{Kind: "compile", Gen: "deep-chain", Entries: es, Svc: "a", DC: "dc1", ToCoq: true}
+		c.Valid = allValid(es)
+		emit(c)
+	}
+}
+
+// outside the modelled feature set: oracle only
+func (g *gen) wideCase() Case {
+	es := g.entrySet(g.p(0.2))
+	w := &WideCtx{}
+	for i := range es {
+		e := &es[i]
+		switch e.Kind {
+		case "resolver":
+			e.LB = g.p(0.3)
+			if e.Redirect != nil && g.p(0.3) {
+				e.Redirect.Peer = "peer1"
+				e.Redirect.DC = ""
+				e.Redirect.Sub = ""
+				if e.Redirect.Svc == "" {
+					e.Redirect.Svc = g.pick(g.svcs)
+				}
+				w.Peers = []string{"peer1"}
+			}
+			for j := range e.Failover {
+				if g.p(0.3) {
+					e.Failover[j].Policy = g.pick([]string{"sequential", "order-by-locality"})
+				}
+				for k := range e.Failover[j].Targets {
+					if g.p(0.3) {
+						e.Failover[j].Targets[k].Peer = "peer1"
+						e.Failover[j].Targets[k].DC = ""
+						e.Failover[j].Targets[k].Sub = ""
+						w.Peers = []string{"peer1"}
+					}
+				}
+			}
+		case "defaults":
+			if g.p(0.3) {
+				e.MeshGW = g.pick([]string{"local", "remote", "none"})
+			}
+			if g.p(0.2) {
+				e.Protocol = strings.ToUpper(e.Protocol)
+			}
+		}
+	}
+	if g.p(0.3) {
+		w.MeshGW = g.pick([]string{"local", "remote"})
+	}
+	if g.p(0.3) {
+		w.Timeout = 1000 + g.rng.Intn(5000)
+	}
+	c := g.compileCase("wide", es)
+	c.Wide = w
+	c.ToCoq = false
+	return c
+}
+
+// ------------------------------------------------------------------ store cases
+
+type storedRow struct {
+	Kind, Name string
+	Modify     uint64
+	Hash       string
+}
+
+func dumpStore(s *state.Store) []storedRow {
+	_, all, err := s.ConfigEntries(nil, structs.WildcardEnterpriseMetaInDefaultPartition())
+	if err != nil {
+		panic(err)
+	}
+	var rows []storedRow
+	for _, e := range all {
+		b, _ := json.Marshal(e)
+		h := sha256.Sum256(b)
+		rows = append(rows, storedRow{Kind: e.GetKind(), Name: e.GetName(), Modify: e.GetRaftIndex().ModifyIndex, Hash: hex.EncodeToString(h[:8])})
+	}
+	sort.Slice(rows, func(i, j int) bool {
+		if rows[i].Kind != rows[j].Kind {
+			return rows[i].Kind < rows[j].Kind
+		}
+		return rows[i].Name < rows[j].Name
+	})
+	return rows
+}
+
+func chainCompiles(s *state.Store, svc string) (ok bool, msg string, hungNow bool) {
+	type res struct {
+		ok  bool
+		msg string
+	}
+	ch := make(chan res, 1)
+	go func() {
+		defer func() {
+			if r := recover(); r != nil {
+				ch <- res{false, fmt.Sprintf("panic:%v", r)}
+			}
+		}()
+		_, set, err := s.ReadDiscoveryChainConfigEntries(nil, svc, structs.DefaultEnterpriseMetaInDefaultPartition())
+		if err != nil {
+			ch <- res{false, "read:" + err.Error()}
+			return
+		}
+		_, err = discoverychain.Compile(discoverychain.CompileRequest{
+			ServiceName: svc, EvaluateInNamespace: "default", EvaluateInPartition: "default",
+			EvaluateInDatacenter: "dc1", EvaluateInTrustDomain: "11111111-2222-3333-4444-555555555555.consul", Entries: set,
+		})
+		if err != nil {
+			ch <- res{false, err.Error()}
+			return
+		}
+		ch <- res{true, ""}
+	}()
+	select {
+	case r := <-ch:
+		return r.ok, r.msg, false
+	case <-time.After(5 * time.Second):
+		hung = true
+		return false, "timeout", true
+	}
+}
+
+type related interface {
+	ListRelatedServices() []structs.ServiceID
+}
+
+// is chain X one of the chains the write to (kind,name) must re-validate: the written name
+// itself or a chain owning a router/splitter/resolver that names it; every chain with such an
+// entry for proxy-defaults
+func directlyAffected(before []structs.ConfigEntry, x, kind, name string) bool {
+	if kind != structs.ProxyDefaults && x == name {
+		return true
+	}
+	for _, e := range before {
+		if e.GetName() != x {
+			continue
+		}
+		switch e.GetKind() {
+		case structs.ServiceRouter, structs.ServiceSplitter, structs.ServiceResolver:
+			if kind == structs.ProxyDefaults {
+				return true
+			}
+			for _, sid := range e.(related).ListRelatedServices() {
+				if sid.ID == name {
+					return true
+				}
+			}
+		}
+	}
+	return false
+}
+
+// the proposed full entry set compiled directly (no store), for "rejected without cause"
+func proposedCompiles(before []structs.ConfigEntry, newEntry structs.ConfigEntry, delKind, delName, svc string) bool {
+	set := configentry.NewDiscoveryChainSet()
+	for _, e := range before {
+		if newEntry != nil && e.GetKind() == newEntry.GetKind() && e.GetName() == newEntry.GetName() {
+			continue
+		}
+		if newEntry == nil && e.GetKind() == delKind && e.GetName() == delName {
+			continue
+		}
+		set.AddEntries(e)
+	}
+	if newEntry != nil {
+		set.AddEntries(newEntry)
+	}
+	_, err := discoverychain.Compile(discoverychain.CompileRequest{
+		ServiceName: svc, EvaluateInNamespace: "default", EvaluateInPartition: "default",
+		EvaluateInDatacenter: "dc1", EvaluateInTrustDomain: "11111111-2222-3333-4444-555555555555.consul", Entries: set,
+	})
+	return err == nil
+}
+
+// drives a fresh store through the ops; fills verdicts, stored sets, oracle
+func runStoreCase(c *Case, universe []string) {
+	s := state.NewStateStore(nil)
+	c.Oracle = ""
+	c.Sig = nil
+	broken := map[string]bool{}
+	const base = 100
+	for i := range c.Ops {
+		op := &c.Ops[i]
+		idx := uint64(base + i)
+		beforeRows := dumpStore(s)
+		_, before, _ := s.ConfigEntries(nil, structs.WildcardEnterpriseMetaInDefaultPartition())
+		var err error
+		var ce structs.ConfigEntry
+		kind := consulKind(op.Entry.Kind)
+		if op.Del {
+			err = s.DeleteConfigEntry(idx, kind, op.Entry.Name, structs.DefaultEnterpriseMetaInDefaultPartition())
+		} else {
+			ce, err = prepared(op.Entry)
+			if err != nil {
+				panic("store op with an entry the endpoint would refuse: " + err.Error())
+			}
+			err = s.EnsureConfigEntry(idx, ce)
+		}
+		op.Accepted = err == nil
+		op.Msg = ""
+		if err != nil {
+			op.Msg = err.Error()
+		}
+		afterRows := dumpStore(s)
+		op.Stored = nil
+		for _, r := range afterRows {
+			op.Stored = append(op.Stored, Stored{Kind: shortKind(r.Kind), Name: r.Name, Op: int(r.Modify) - base})
+		}
+		if c.Oracle != "" {
+			continue
+		}
+		if !op.Accepted {
+			if js(beforeRows) != js(afterRows) {
+				c.Oracle = fmt.Sprintf("write-guard:rejected-write-changed-store@%d", i)
+				c.Sig = map[string]interface{}{"kind": "rejected-write-changed-store"}
+				continue
+			}
+			// a cause must exist among the chains the write has to re-validate
+			cause := false
+			for _, x := range universe {
+				if directlyAffected(before, x, kind, op.Entry.Name) {
+					var ne structs.ConfigEntry
+					if !op.Del {
+						ne = ce
+					}
+					if !proposedCompiles(before, ne, kind, op.Entry.Name, x) {
+						cause = true
+					}
+				}
+			}
+			if !cause {
+				c.Oracle = fmt.Sprintf("write-guard:rejected-without-cause@%d:%s", i, op.Msg)
+				c.Sig = map[string]interface{}{"kind": "rejected-without-cause"}
+			}
+			continue
+		}
+		// accepted: no chain that compiled before may be broken now
+		for _, x := range universe {
+			ok, msg, h := chainCompiles(s, x)
+			if h {
+				c.Oracle = fmt.Sprintf("termination:chain-%s-did-not-compile-in-5s@%d", x, i)
+				c.Sig = map[string]interface{}{"kind": "termination"}
+				return
+			}
+			if !ok && !broken[x] {
+				direct := directlyAffected(before, x, kind, op.Entry.Name)
+				if c.Oracle == "" || direct {
+					c.Oracle = fmt.Sprintf("write-guard:accepted-write-breaks-chain-%s@%d:%s", x, i, msg)
+					c.Sig = map[string]interface{}{"kind": "accepted-write-breaks-chain", "direct": direct}
+				}
+			}
+			broken[x] = !ok
+		}
+	}
+}
+
+func (g *gen) storeOps() []Op {
+	var es []Entry
+	for tries := 0; tries < 50; tries++ {
+		es = g.entrySet(false)
+		if allValid(es) && len(es) >= 3 {
+			break
+		}
+	}
+	var keep []Entry
+	for _, e := range es {
+		if _, err := prepared(e); err == nil {
+			keep = append(keep, e)
+		}
+	}
+	var ops []Op
+	for _, e := range keep {
+		ops = append(ops, Op{Entry: e})
+	}
+	// then deletions, protocol flips and rewrites that may invalidate chains
+	extra := 2 + g.rng.Intn(4)
+	for i := 0; i < extra && len(keep) > 0; i++ {
+		e := keep[g.rng.Intn(len(keep))]
+		switch g.rng.Intn(4) {
+		case 0:
+			ops = append(ops, Op{Del: true, Entry: Entry{Kind: e.Kind, Name: e.Name}})
+		case 1:
+			ops = append(ops, Op{Entry: Entry{Kind: "defaults", Name: g.pick(g.svcs), Protocol: g.pick(protosU)}})
+		case 2:
+			ops = append(ops, Op{Entry: Entry{Kind: "proxy", Name: "global", Protocol: g.pick(protosU)}})
+		default:
+			for tries := 0; tries < 20; tries++ {
+				alt := g.entrySet(false)
+				done := false
+				for _, a := range alt {
+					if a.Kind == e.Kind && a.Name == e.Name {
+						if _, err := prepared(a); err == nil {
+							ops = append(ops, Op{Entry: a})
+							done = true
+						}
+						break
+					}
+				}
+				if done {
+					break
+				}
+			}
+		}
+	}
+	return ops
+}
+
+// the two-hop situation: chain a reaches c only through b's splitter
+func indirectOps(variant int) []Op {
+	switch variant {
+	case 0:
+		return []Op{
+			{Entry: Entry{Kind: "defaults", Name: "a", Protocol: "http"}},
+			{Entry: Entry{Kind: "defaults", Name: "c", Protocol: "http"}},
+			{Entry: Entry{Kind: "splitter", Name: "b", Splits: []Split{{W: 10000, Svc: "c"}}}},
+			{Entry: Entry{Kind: "router", Name: "a", Routes: []Route{{Svc: "b"}}}},
+			{Entry: Entry{Kind: "defaults", Name: "c", Protocol: "grpc"}},
+		}
+	default:
+		return []Op{
+			{Entry: Entry{Kind: "proxy", Name: "global", Protocol: "http"}},
+			{Entry: Entry{Kind: "resolver", Name: "c", Subsets: []string{"v1"}}},
+			{Entry: Entry{Kind: "resolver", Name: "b", Subsets: []string{"v1", "v2"}, Failover: []Failover{{Key: "v2", Svc: "c", Sub: "v1"}}}},
+			{Entry: Entry{Kind: "router", Name: "a", Routes: []Route{{Svc: "b", Sub: "v2"}}}},
+			{Del: true, Entry: Entry{Kind: "resolver", Name: "c"}},
+		}
+	}
+}
+
+// ------------------------------------------------------------------ shrinking
+
+func sameSig(a, b map[string]interface{}) bool { return js(a) == js(b) }
+
+func shrinkCompile(c Case, rng *rand.Rand, reps int) Case {
+	best := c
+	try := func(es []Entry) bool {
+		if hung {
+			return false
+		}
+		t := Case{Kind: "compile", Gen: c.Gen, Entries: es, Svc: c.Svc, DC: c.DC, Ovr: c.Ovr, Wide: c.Wide, ToCoq: c.ToCoq}
+		t.Valid = allValid(es)
+		runCompileCase(&t, rng, reps)
+		if t.Oracle != "" && sameSig(t.Sig, c.Sig) {
+			t.ID = c.ID
+			best = t
+			return true
+		}
+		return false
+	}
+	changed := true
+	for changed && !hung {
+		changed = false
+		for i := 0; i < len(best.Entries); i++ {
+			es := append(append([]Entry(nil), best.Entries[:i]...), best.Entries[i+1:]...)
+			if try(es) {
+				changed = true
+				break
+			}
+		}
+		if changed {
+			continue
+		}
+		for i := 0; i < len(best.Entries) && !changed; i++ {
+			e := best.Entries[i]
+			cp := func() []Entry { return append([]Entry(nil), best.Entries...) }
+			for j := range e.Routes {
+				es := cp()
+				ne := e
+				ne.Routes = append(append([]Route(nil), e.Routes[:j]...), e.Routes[j+1:]...)
+				es[i] = ne
+				if try(es) {
+					changed = true
+					break
+				}
+			}
+			if changed {
+				break
+			}
+			for j := range e.Failover {
+				es := cp()
+				ne := e
+				ne.Failover = append(append([]Failover(nil), e.Failover[:j]...), e.Failover[j+1:]...)
+				es[i] = ne
+				if try(es) {
+					changed = true
+					break
+				}
+			}
+			if changed {
+				break
+			}
+			if e.Redirect != nil {
+				es := cp()
+				ne := e
+				ne.Redirect = nil
+				es[i] = ne
+				if try(es) {
+					changed = true
+				}
+			}
+		}
+	}
+	return best
+}
+
+func shrinkStore(c Case, universe []string) Case {
+	best := c
+	changed := true
+	for changed && !hung {
+		changed = false
+		for i := 0; i < len(best.Ops); i++ {
+			t := Case{Kind: "store", Gen: c.Gen, ID: c.ID, ToCoq: c.ToCoq, Valid: true}
+			t.Ops = append(append([]Op(nil), best.Ops[:i]...), best.Ops[i+1:]...)
+			t.Ops = append([]Op(nil), t.Ops...)
+			runStoreCase(&t, universe)
+			if t.Oracle != "" && sameSig(t.Sig, c.Sig) {
+				best = t
+				changed = true
+				break
+			}
+		}
+	}
+	return best
+}
+
+// ------------------------------------------------------------------ main
+
+func features(c *Case) []string {
+	f := map[string]bool{}
+	for _, e := range c.Entries {
+		f[e.Kind] = true
+		if e.Redirect != nil {
+			f["redirect"] = true
+		}
+		if len(e.Failover) > 0 {
+			f["failover"] = true
+		}
+		if e.DefaultSubset != "" {
+			f["default-subset"] = true
+		}
+		if e.External {
+			f["external"] = true
+		}
+	}
+	if c.Ovr != "" {
+		f["override-protocol"] = true
+	}
+	if d := splitterDepth(c.Entries); d >= 2 {
+		f[fmt.Sprintf("splitter-depth-%d", d)] = true
+	}
+	var out []string
+	for k := range f {
+		out = append(out, k)
+	}
+	sort.Strings(out)
+	return out
+}
+
+func main() {
+	seed := flag.Int64("seed", 1, "")
+	tier := flag.String("tier", "quick", "")
+	outp := flag.String("out", "", "")
+	replay := flag.String("replay", "", "")
+	flag.Parse()
+
+	if *replay != "" {
+		doReplay(*replay)
+		return
+	}
+
+	rng := rand.New(rand.NewSource(*seed))
+	g := &gen{rng: rng, svcs: svcsQuick, parts: floatSafePartitions()}
+	thorough := *tier == "thorough"
+
+	f, err := os.Create(*outp)
+	if err != nil {
+		panic(err)
+	}
+	defer f.Close()
+	w := bufio.NewWriterSize(f, 1<<20)
+	defer w.Flush()
+	enc := json.NewEncoder(w)
+	id := 0
+	reps := 5
+	emitC := func(c Case) {
+		if hung {
+			return
+		}
+		c.ID = id
+		id++
+		r := reps
+		if splitterDepth(c.Entries) >= 3 {
+			r = 24
+		}
+		runCompileCase(&c, rng, r)
+		c.Feat = features(&c)
+		if c.Oracle != "" && !hung {
+			orig := c.Oracle
+			c = shrinkCompile(c, rng, r)
+			c.Feat = append(features(&c), "shrunk-from:"+orig)
+		}
+		if err := enc.Encode(&c); err != nil {
+			panic(err)
+		}
+	}
+	emitS := func(c Case) {
+		if hung {
+			return
+		}
+		c.ID = id
+		id++
+		c.Kind = "store"
+		c.ToCoq = true
+		c.Valid = true
+		runStoreCase(&c, g.svcs)
+		if c.Oracle != "" && !hung {
+			c = shrinkStore(c, g.svcs)
+		}
+		if err := enc.Encode(&c); err != nil {
+			panic(err)
+		}
+	}
+
+	nRandom, nMal, nWide, nStore, nDeep, wv := 1500, 500, 600, 260, 12, 1
+	if thorough {
+		nRandom, nMal, nWide, nStore, nDeep, wv = 12000, 4000, 6000, 2500, 60, 3
+	}
+	// fixed scenarios first
+	for v := 0; v < 2; v++ {
+		emitS(Case{Gen: "indirect", Ops: indirectOps(v)})
+	}
+	g.deepChains(emitC, nDeep)
+	g.redirectFamily(emitC)
+	g.splitterFamily(emitC, wv)
+	for i := 0; i < nRandom && !hung; i++ {
+		emitC(g.compileCase("random", g.entrySet(false)))
+	}
+	for i := 0; i < nMal && !hung; i++ {
+		emitC(g.compileCase("malformed", g.entrySet(true)))
+	}
+	if thorough {
+		g4 := &gen{rng: rng, svcs: []string{"a", "b", "c", "d"}, parts: g.parts}
+		for i := 0; i < 4000 && !hung; i++ {
+			emitC(g4.compileCase("random4", g4.entrySet(i%4 == 0)))
+		}
+	}
+	for i := 0; i < nWide && !hung; i++ {
+		emitC(g.wideCase())
+	}
+	for i := 0; i < nStore && !hung; i++ {
+		ops := g.storeOps()
+		emitS(Case{Gen: "store-random", Ops: ops})
+		// the same writes in other orders
+		for k := 0; k < 2; k++ {
+			p := append([]Op(nil), ops...)
+			rng.Shuffle(len(p), func(i, j int) { p[i], p[j] = p[j], p[i] })
+			emitS(Case{Gen: "store-reordered", Ops: p})
+		}
+	}
+	w.Flush()
+	if hung {
+		// a goroutine is still spinning inside the compiler; leave without waiting for it
+		f.Sync()
+		os.Exit(0)
+	}
+}
+
+func doReplay(path string) {
+	b, err := os.ReadFile(path)
+	if err != nil {
+		panic(err)
+	}
+	var wrap struct {
+		Case *Case `json:"case"`
+	}
+	if err := json.Unmarshal(b, &wrap); err != nil || wrap.Case == nil {
+		fmt.Println("replay file has no \"case\" (a correspondence or proof failure names the lemma instead)")
+		os.Exit(2)
+	}
+	c := *wrap.Case
+	rng := rand.New(rand.NewSource(1))
+	if c.Kind == "store" {
+		runStoreCase(&c, svcsQuick)
+		for i, op := range c.Ops {
+			fmt.Printf("op %d del=%v %s/%s accepted=%v %s\n", i, op.Del, op.Entry.Kind, op.Entry.Name, op.Accepted, op.Msg)
+		}
+	} else {
+		c.Outs = nil
+		c.Oracle = ""
+		runCompileCase(&c, rng, 24)
+		for _, o := range c.Outs {
+			fmt.Println("output:", js(o))
+		}
+	}
+	if c.Oracle != "" {
+		fmt.Println("ORACLE FAILS:", c.Oracle)
+		os.Exit(1)
+	}
+	fmt.Println("oracle silent")
 }
